@@ -87,7 +87,7 @@ class DecoSys:
                     finally:
                         s.ex[cc] += 1
 
-            deco = manager(reporter)      # all parameters optional, one positional argument given
+            deco = manager(report=reporter) if suppress else manager(reporter)      # all parameters optional; given by keyword or by position
         else:
             class Manager(L.ContextDecorator):
                 async def __aenter__(self):
